@@ -513,6 +513,8 @@ pub struct DecRun {
     pub nontrivial: bool,
     pub aborted: Option<String>,
     pub env_calls: usize,
+    /// the environment has delivered the whole stream and raised EOF
+    pub env_done: bool,
     pub ops: Vec<Op>,
     pub events: usize,
     pub panicked_in_contract: bool,
@@ -607,6 +609,7 @@ pub fn drive_dec(spec: &DecSpec, mode: DecMode, source: &mut dyn OpSource, mut p
         nontrivial: false,
         aborted: None,
         env_calls: 0,
+        env_done: false,
         ops: Vec::new(),
         events: 0,
         panicked_in_contract: false,
@@ -624,6 +627,7 @@ pub fn drive_dec(spec: &DecSpec, mode: DecMode, source: &mut dyn OpSource, mut p
     let max_events = 20_000usize;
 
     loop {
+        run.env_done = eof && visible == len;
         let view = View { remaining: len - visible, visible, pending: visible - consumed, eof, finished: run.finished, min_cap: min, last_full };
         let op = match source.next(&view) {
             Some(op) => op,
